@@ -130,6 +130,7 @@ func checkC14(e *RunEnv) *CheckResult {
 				{Run("rm", "a")}, // the staging area emptied: the history is unchanged
 				{Mkdir(".goitignore"), Write(".goitignore/x", "a directory named like the ignore file\n")},
 				{Write(".goitignore", strings.Repeat("a", 70000)+"\n*.o\n")},
+				{Write("a", "empty message\n"), Run("add", "a"), Run("commit", "-m", ""), Write("a", "blank lines\n"), Run("add", "a"), Run("commit", "-m", "\n\n")},
 				{Write("a", "hdr2\n"), Run("add", "a"), Run("commit", "-m", "subject\ncommit "+strings.Repeat("0123456789", 4)+"\nAuthor: X <x@y.zz>\nDate: never")},
 				{Write("a", "hdr\n"), Run("add", "a"), Run("commit", "-m", "subject\nparent "+strings.Repeat("ab", 20)+"\nauthor A <a@b.co> 1 +0000")},
 			}
